@@ -17,8 +17,6 @@ import lib
 from lib import gN, gbool
 
 HEADER = "From CJ Require Import Common.Base C17.Model C17.Run.\n"
-FILE_ID = {"cmd/application/conns.go": 1, "cmd/application/main.go": 2, "pkg/station/lib/proxies.go": 3,
-           "pkg/station/lib/registration.go": 4, "pkg/station/lib/registration_ingest.go": 5}
 ARG = {"Const": "AConst", "RawErr": "ARawErr", "ClientAddr": "AClientAddr", "Placeholder": "APlaceholder",
        "Digest": "ADigest", "InternalErr": "AInternalErr"}
 ERRNO_TEXT = {11: "resource temporarily unavailable", 22: "invalid argument", 32: "broken pipe",
@@ -59,9 +57,12 @@ def run_walker(ctx):
 
 
 def emit_sites(ctx, tab):
-    known = {k["key"] for k in ctx.known}
     order = tab["level_order"]
-    lines = ["(* GENERATED on every run by driver/props/c17.py from harness/logsites — do not edit. *)",
+    files = sorted({s["file"] for s in tab["sites"]})
+    fid = {f: i + 1 for i, f in enumerate(files)}
+    lines = ["(* GENERATED on every run by driver/props/c17.py from harness/logsites — do not edit.",
+             "   walked packages: %s" % " ".join(tab.get("packages") or []),
+             "   files: %s *)" % ", ".join("%d=%s" % (i, f) for f, i in fid.items()),
              "From CJ Require Import Common.Base C17.Model.", "", "Definition sites : list site := ["]
     rows = []
     for s in tab["sites"]:
@@ -71,8 +72,8 @@ def emit_sites(ctx, tab):
                 args.append("ASanitised %s" % ("Conns" if s["file"].startswith("cmd/") else "Proxies"))
             else:
                 args.append(ARG[a["class"]])
-        rows.append("  {| s_file := %d; s_line := %d; s_level := %s; s_args := [%s]; s_known := %s |}" % (
-            FILE_ID.get(s["file"], 9), s["line"], s["level"], "; ".join(args), gbool(site_key(s) in known)))
+        rows.append("  {| s_file := %d; s_line := %d; s_level := %s; s_args := [%s] |}" % (
+            fid[s["file"]], s["line"], s["level"], "; ".join(args)))
     lines.append(";\n".join(rows))
     lines.append("].")
     lv = ["(%d, %d)" % (i + 1, order.get(n, 0)) for i, n in enumerate(["Trace", "Debug", "Warn", "Error", "Info"])]
@@ -119,7 +120,16 @@ def static_part(ctx):
             ctx.broken("sanitiser-shape", "generalizeErr in %s falls back to `%s` for errors it does not know (model: addressFreeErr)"
                        % (f, cases[-1] if cases else "?"))
     ctx.cov["site_table"] = {"sites": len(tab["sites"]), "default_level": default, "level_order": order,
-                             "unsafe_at_default": [k for k, _, _ in unsafe]}
+                             "unsafe_at_default": [k for k, _, _ in unsafe], "typed": tab.get("typed"),
+                             "type_note": tab.get("type_note"), "packages": tab.get("packages"),
+                             "files": sorted({s["file"] for s in tab["sites"]})}
+    if not tab.get("typed"):
+        ctx.broken("walker", "the walker could not type-check the station's packages and fell back to names: %s" % tab.get("type_note"))
+    elif tab.get("type_note"):
+        ctx.broken("walker", "type errors while walking: %s" % tab.get("type_note")[:400])
+    for must in ("cmd/application", "pkg/station/lib", "pkg/transports/connecting/dtls", "pkg/dtls"):
+        if must not in (tab.get("packages") or []):
+            ctx.broken("walker", "package %s is no longer in the walked set (dependency closure of cmd/application)" % must)
     return tab
 
 
@@ -199,7 +209,7 @@ def gen_cases(ctx):
         fam = kind or rng.choice(["v4", "v6", "v4mapped"])
         c = {"scenario": scenario, "client": CLIENTS[fam](i), "port": 20000 + i % 40000, "addr_kind": "tcp", "reads": [],
              "err_at": {}, "geo": {}, "wrap": [], "wrap_err": None, "dial": "ok", "proxy_hdr": False, "log_ip": False,
-             "level": "", "hold": False}
+             "level": "", "hold": False, "ct_mode": "", "geo_after": 0}
         c.update(kw)
         if at:
             c["err_at"] = dict(c["err_at"])
@@ -251,8 +261,20 @@ def gen_cases(ctx):
         add("found", None, "", leaf("text"), kind=fam, reads=data, wrap=["found"], proxy_hdr=True, addr_kind="noport")
         add("found", None, "", leaf("text"), kind=fam, reads=data, wrap=["found"], proxy_hdr=True, addr_kind="hostport")
         add("ingest_blocklisted", None, "", leaf("text"), kind=fam if fam != "v4mapped" else "v4")
+        add("ingest_blocklisted", None, "", leaf("text"), kind=fam if fam != "v4mapped" else "v4", log_ip=True)
         # positive control: with LOG_CLIENT_IP the address must be found (the search works)
         add("noreg", None, "read:0", op(sysx(leaf("errno:104"))), kind=fam, log_ip=True)
+    # connecting transports (the station dials the client): registration through the real ingest worker,
+    # then Connect fails / the relay runs on the dialled connection / the GeoIP lookup of the registrant fails
+    for e in (rng.sample(sh, 10) if quick else sh):
+        add("ct", "PStats", "read:1", e, kind=rng.choice(["v4", "v6"]), ct_mode="relay", reads=data[:1])
+        add("ct", None, "", e, kind=rng.choice(["v4", "v6"]), ct_mode="fail", wrap_err=e)
+        c = add("ct", "PLibPlain", "", e, kind=rng.choice(["v4", "v6"]), ct_mode="geo", geo_after=2)
+        c["geo"] = {"cc": e}
+    for fam in ("v4", "v6"):
+        add("ct", None, "", leaf("text"), kind=fam, ct_mode="relay", reads=data, log_ip=False)
+        # the real DTLS transport (stand-in DNAT): the dial to the distinctive client address fails / times out
+        add("dtls_real", None, "", leaf("text"), kind=fam)
     # transport error path (Warn level; sleeps until the classification deadline)
     for e in ([op(sysx(leaf("errno:101"))), wrap(leaf("textaddr"))] if quick else rng.sample(sh, 12)):
         add("wraperr", None, "", e, reads=data[:1], wrap=["err"], wrap_err=e, level="warn")
@@ -321,6 +343,9 @@ def observed_code(c, out):
         if c["_at"].startswith("close") and not v:
             v = st.get("CovertConnErr", "")
         return parse_code(v)
+    if p == "PLibPlain":
+        m = re.search(r"Failed to get (?:CC|ASN): ?(.*)", out)
+        return parse_code(m.group(1)) if m else 0
     if p == "PLib":
         m = re.search(r"failed geoip (?:cc|asn) lookup: (.*)", out)
         return parse_code(m.group(1)) if m else 0
@@ -362,8 +387,6 @@ def run(ctx):
     rc_e, out_e = ctx.coq_make(["C17/Examples.vo"])
     if rc_e != 0:
         ctx.broken("examples", "C17/Examples.v (non-vacuity) no longer checks: %s" % out_e[-400:])
-    rc_r, out_r = ctx.coq_make(["C17/Refuted.vo"])
-    ctx.cov["refuted_witness_checks"] = (rc_r == 0)   # false = the open known finding no longer shows in the site table
     if tab is None:
         return
     cases = gen_cases(ctx)
@@ -383,6 +406,9 @@ def run(ctx):
         kind = "%s/%s" % (c["scenario"], (c.get("_at") or "-").split(":")[0])
         ctx.count(slim, nontrivial=True, kind=kind)
         ctx.cov["histogram"]["family/" + c.get("_fam", "?")] = ctx.cov["histogram"].get("family/" + c.get("_fam", "?"), 0) + 1
+        if r["panic"] == "dtls transport unavailable":
+            ctx.cov["dtls_real_unavailable"] = True     # UDP port 41245 taken by another process on this machine
+            continue
         if r["panic"]:
             ctx.fail("panic/" + c["scenario"], "handler panicked: %s" % r["panic"], slim)
             continue
@@ -413,7 +439,7 @@ def run(ctx):
     ctx.sample({"case": {k: v for k, v in cases[40].items() if not k.startswith("_")}, "observed": res[40]["out"][-400:]})
     ctx.sample({"statistics_output": res[-1]["out"][-600:]})
     ctx.require_kinds(["noreg/read", "noreg/setdeadline", "notransport/read", "readerr/read", "found/setdeadline", "found/read",
-                       "found/write", "found/close", "geo/-", "ingest_geo/-", "ingest_blocklisted/-", "wraperr/-",
+                       "found/write", "found/close", "geo/-", "ingest_geo/-", "ingest_blocklisted/-", "wraperr/-", "ct/read", "ct/-", "dtls_real/-",
                        "family/v4", "family/v6", "family/v4mapped", "site/Error", "site/Info", "site/Print", "site/Debug", "site/Warn"])
     mm = ctx.coq_mismatches("log", HEADER, terms, "chk", shard=500, need_vo=["C17/Run.vo"])
     if mm:
